@@ -64,17 +64,29 @@ Inductive fkind :=
 | FkFloat (bits : N) | FkComplex (bits : N) | FkDuration
 | FkText (ptr_recv : bool)    (* MarshalWrapper around a TextUnmarshaler struct *)
 | FkTime                      (* time.Time: flaghelper.TimeWrapper (std) / MarshalWrapper (pflag) *)
+| FkEnum (words : list str)   (* the palette's TextUnmarshalers of scalar kind: exactly these texts *)
 | FkIP                        (* MarshalWrapper around net.IP *)
 | FkStrSlice (native : bool)  (* flaghelper.StringSliceFlag / pflag's own StringSlice *)
 | FkIntSlice (signed : bool) (bits : N)
 | FkStrMap | FkStrSet | FkStrSliceMap.
+
+(* rty.NSeverity (an integer with names) and rty.NMode (a string enum): leaves
+   of scalar KIND whose text is what their UnmarshalText accepts *)
+Definition severity_name : str := s2r "rty.NSeverity"%string.
+Definition mode_name : str := s2r "rty.NMode"%string.
+Definition severity_words : list str := map s2r ["DEBUG"; "INFO"; "WARN"; "ERROR"]%string.
+Definition mode_words : list str := map s2r ["fast"; "slow"]%string.
 
 Definition plain (name : str) : bool := match name with [] => true | _ => false end.
 
 (* t: the leaf type with all pointers stripped *)
 Definition flag_kind (p : pkg) (t : ty) : option fkind :=
   match t with
-  | TTextU id recv => if recv && str_eqb id time_name then Some FkTime else Some (FkText recv)
+  | TTextU id recv =>
+      if recv && str_eqb id time_name then Some FkTime
+      else if str_eqb id severity_name then Some (FkEnum severity_words)
+      else if str_eqb id mode_name then Some (FkEnum mode_words)
+      else Some (FkText recv)
   | TBasic k name =>
       if str_eqb name duration_name then Some FkDuration else
       match k with
@@ -191,6 +203,7 @@ Definition flag_set (k : fkind) (st : fstate) (text : str) : outcome fstate :=
   | FkComplex b => v <- parse_complex b text ;; upd v
   | FkDuration => z <- parse_duration text ;; upd (VInt z)
   | FkTime => v <- time_value text ;; upd v      (* Time.UnmarshalText: Sources/TimeText.v *)
+  | FkEnum ws => if existsb (str_eqb text) ws then upd (VText text) else Err e_syntax
   | FkText true => upd (VText text)
   | FkText false => upd (st_val st)
   | FkIP => v <- parse_ip text ;; upd v
